@@ -12,6 +12,7 @@ import (
 	"github.com/verily-src/fhirpath-go/fhirpath/compopts"
 	"github.com/verily-src/fhirpath-go/fhirpath/internal/funcs"
 	"github.com/verily-src/fhirpath-go/fhirpath/internal/funcs/impl"
+	"github.com/verily-src/fhirpath-go/fhirpath/system"
 	"github.com/verily-src/fhirpath-go/fhirpath/verifharness/core"
 	"github.com/verily-src/fhirpath-go/fhirpath/verifharness/fx"
 )
@@ -32,7 +33,7 @@ func init() {
 			if m.Cover["table-names"] < 70 {
 				r = append(r, fmt.Sprintf("only %d table names observed", m.Cover["table-names"]))
 			}
-			for _, k := range []string{"accepted", "rejected", "fingerprint", "unimplemented", "experimental-name-rejected-by-default-after-history"} {
+			for _, k := range []string{"accepted", "rejected", "fingerprint", "unimplemented", "experimental-name-rejected-by-default-after-history", "experimental-with-custom-function", "empty-literal-argument"} {
 				if m.Cover[k] == 0 {
 					r = append(r, "never observed: "+k)
 				}
@@ -83,6 +84,41 @@ func c16Call(env *core.Env, name string, n int, experimental bool, inTable bool,
 		}
 		env.Violatef(fmt.Sprintf("C16/%s/%s/%d", kind, name, n), "`%s` [%s]: Compile accepted=%v but table says inTable=%v bounds=[%d,%d]: %s", src, cfg, accepted, inTable, min, max, cr.Short())
 		return
+	}
+	// the same count with the empty-collection literal as (last) argument(s): the count written in the call decides
+	if n >= 1 && inTable {
+		sp := specByName(name)
+		recv := "%multi"
+		if sp != nil {
+			recv = sp.Recv
+		}
+		for _, form := range []string{"last", "all"} {
+			args := make([]string, n)
+			for i := range args {
+				args[i] = "1"
+				if sp != nil && i < len(sp.Args) {
+					args[i] = sp.Args[i]
+				}
+				if form == "all" || i == n-1 {
+					args[i] = "{}"
+				}
+			}
+			esrc := name + "(" + strings.Join(args, ", ") + ")"
+			if recv != "" {
+				esrc = recv + "." + esrc
+			}
+			eex, ecr := fx.Compile(env, esrc, co...)
+			env.Cover("empty-literal-argument")
+			if ecr.IsPanic() {
+				env.Violatef(fx.PanicSig("C16", ecr), "Compile(`%s`) => %s", esrc, ecr.Short())
+			} else if (eex != nil) != wantAccept {
+				kind := "compile-rejected"
+				if eex != nil {
+					kind = "compile-accepted"
+				}
+				env.Violatef(fmt.Sprintf("C16/%s/%s/%d/empty-literal-argument", kind, name, n), "`%s` [%s] (%d argument(s) written): Compile accepted=%v but the table bounds are [%d,%d]: %s", esrc, cfg, n, eex != nil, min, max, trunc(ecr.Short(), 120))
+			}
+		}
 	}
 	if !accepted {
 		env.Cover("rejected")
@@ -197,6 +233,7 @@ func runC16(env *core.Env) {
 	}
 	// after everything else this worker compiled (with and without WithExperimentalFuncs): the default table is
 	// still the default table
+	custom := func(in system.Collection) (system.Collection, error) { return in, nil }
 	for _, t := range table {
 		if !t.Experimental {
 			continue
@@ -204,6 +241,21 @@ func runC16(env *core.Env) {
 		for n := t.Min; n <= t.Max && n <= 4; n++ {
 			c16Call(env, t.Name, n, false, false, t.Min, t.Max)
 			env.Cover("experimental-name-rejected-by-default-after-history")
+			// WithExperimentalFuncs combined with a custom function, in both orders: both stay callable
+			src := callSrc(t.Name, n)
+			for oi, co := range [][]fhirpath.CompileOption{
+				{compopts.WithExperimentalFuncs(), compopts.AddFunction("zzcustom", custom)},
+				{compopts.AddFunction("zzcustom", custom), compopts.WithExperimentalFuncs()},
+				{compopts.AddFunction("zzcustom", custom), compopts.WithExperimentalFuncs(), compopts.AddFunction("zzother", custom)},
+			} {
+				env.Cover("experimental-with-custom-function")
+				if ex, cr := fx.Compile(env, src, co...); ex == nil && !cr.IsPanic() {
+					env.Violatef(fmt.Sprintf("C16/compile-rejected/%s/%d/with-custom-function", t.Name, n), "`%s` is rejected when WithExperimentalFuncs is combined with AddFunction (option order %d): %s", src, oi, trunc(cr.Short(), 140))
+				}
+				if ex, cr := fx.Compile(env, "%multi.zzcustom().count() + "+"1", co...); ex == nil && !cr.IsPanic() {
+					env.Violatef("C16/compile-rejected/custom-function-with-experimental", "a custom function is not callable when AddFunction is combined with WithExperimentalFuncs (option order %d): %s", oi, trunc(cr.Short(), 140))
+				}
+			}
 		}
 	}
 	if env.Shard == 0 {
